@@ -163,8 +163,8 @@ func run(c *lib.Ctx) error {
 	var defs strings.Builder
 	runAssets := func(tag string, ls *lib.Livesim, assets []*lib.TLAsset, gens []lib.GenAsset) {
 		for ai, a := range assets {
-			if strings.HasPrefix(a.Path, "x_") {
-				// borderline layout: consolidateAsset may leave it out (then there is nothing to serve);
+			if strings.HasPrefix(a.Path, "x_") || strings.HasPrefix(a.Path, "bad_") {
+				// borderline or inadmissible layout: consolidateAsset may / must leave it out (then there is nothing to serve);
 				// if it is served, it has to be one gap-free timeline like every other asset
 				if resp := ls.GetRaw(lib.MPDURL(a, lib.TLCfg{Snr: -1, Tsbd: -1, Mode: "number"}, 100000)); resp.Status == 404 {
 					c.Count("left-out/" + a.Path)
@@ -284,7 +284,8 @@ func run(c *lib.Ctx) error {
 	// $Number$ and $Time$ VoD manifests; stpp and thumbnails), plus the borderline ones of the findings stream
 	var layouts []lib.GenAsset
 	for _, l := range lib.GenCatalogue() {
-		if l.Class == "ok" || l.Asset.Name == "x_near_disagree" || l.Asset.Name == "x_text_longer" || l.Asset.Name == "x_starttime_tl" || l.Asset.Name == "x_gap_tl" {
+		if l.Class == "ok" || l.Asset.Name == "x_near_disagree" || l.Asset.Name == "x_text_longer" || l.Asset.Name == "x_starttime_tl" || l.Asset.Name == "x_gap_tl" ||
+			l.Asset.Name == "bad_ms_ntsc" || l.Asset.Name == "bad_ms_89910" || l.Asset.Name == "bad_disagree_1frame" {
 			layouts = append(layouts, l.Asset)
 		}
 	}
